@@ -1,3 +1,172 @@
-/-! Property C09 — theorems (statements live here, helper lemmas in Faithful/Lib) -/
+import Faithful.Lib.RWSys
+import Faithful.Lib.EpochSet
+import Faithful.Generated.LockPrograms
+
+/-!
+# Property C09 — queries and epoch reloads never deadlock and see a consistent epoch set
+
+*Lock part.*  `Generated.lockPrograms` is the translation (by /verif/harness/extract/lockprogs.go, on every run) of
+every package-main function that reaches `MultiEpoch.mu` into its sequence of lock events and calls.
+`generated_nonnesting` decides that each of them, with all calls inlined, is a sequence of non-nested critical
+sections; `nonnesting_deadlock_free` / `every_schedule_can_finish` prove for ANY number of goroutines running any
+such programs under ANY interleaving that no reachable state is stuck and every schedule ends with all operations
+completed; `nested_rlock_can_deadlock` is the converse for the shape the pinned tree had.
+
+*Epoch-set part.*  `EpochSet.step` models the five writers, `EpochSet.numbers` etc. the readers (each runs in one
+critical section, so a concurrent history is a sequence of them): the listing is strictly descending for every
+history, and an epoch no writer addresses is returned unchanged by every read and is never closed.
+
+Assumed, not proved (props/C09.json): the semantics of `sync.RWMutex` (writer preference), the extractor.
+-/
 namespace C09
+open RW
+
+/-! ## the translated lock programs -/
+
+def conv : Generated.LEv → Ev
+  | .rlock => .rlock | .runlock => .runlock | .lock => .lock | .unlock => .unlock
+  | .call f => .call f | .unknown => .unknown
+
+/-- the call table -/
+def table : List (List Ev) := Generated.lockPrograms.map (·.map conv)
+
+/-- call depth cannot exceed the number of functions unless there is recursion (then `inline` gives `none`) -/
+def fuel : Nat := Generated.lockPrograms.length
+
+/-- a translated program with every `.call f` resolved; `none` = recursion, `.unknown`, or a dangling call -/
+def inline (p : List Generated.LEv) : Option (List Op) := inlineEv table fuel (p.map conv)
+
+/-- **Regenerated obligation**: every function of package main that reaches `MultiEpoch.mu` — handlers, accessors,
+    writers, the start-up loader goroutine, the fsnotify callback — runs a sequence of non-nested critical sections,
+    and nothing it calls while holding the lock is unknown to the extractor. -/
+theorem generated_nonnesting : ∀ p ∈ Generated.lockPrograms, nonNestingB (inline p) = true := by decide
+
+/-- the lock program of the function with id `f` (empty for ids outside the table) -/
+def progOf (f : Nat) : List Op := ((Generated.lockPrograms[f]?).bind inline).getD []
+
+theorem progOf_nonnesting (f : Nat) : NonNesting (progOf f) := by
+  unfold progOf
+  cases h : Generated.lockPrograms[f]? with
+  | none => simp [Pairs]
+  | some p =>
+    have hp := generated_nonnesting p (List.mem_of_getElem? h)
+    obtain ⟨q, hq, hn⟩ := (nonNestingB_iff _).1 hp
+    simp [hq, hn]
+
+/-- a goroutine that calls any sequence of extracted functions, one after the other (a request worker serving
+    requests, the loader adding epochs, the watcher handling file events …) -/
+def threadProg (calls : List Nat) : List Op := (calls.map progOf).flatten
+
+theorem threadProg_nonnesting (calls : List Nat) : NonNesting (threadProg calls) :=
+  pairs_flatten (by
+    intro p hp
+    obtain ⟨f, _, rfl⟩ := List.mem_map.1 hp
+    exact progOf_nonnesting f)
+
+/-! ## deadlock freedom -/
+
+/-- **Any number of threads, any non-nesting programs, any interleaving**: a reachable state that is not finished
+    has an enabled step. -/
+theorem nonnesting_deadlock_free (ps : List (List Op)) (h : ∀ p ∈ ps, NonNesting p) :
+    ∀ s, Reachable ps s → finished s = false → ∃ s', Step s s' :=
+  RW.nonnesting_deadlock_free ps h
+
+/-- **Every operation completes**: every schedule from a reachable state `s` has at most `work s` steps
+    (`schedule_bounded`), and from every reachable state the all-finished state can be reached — together with
+    deadlock freedom: however the scheduler continues, it ends, and it ends with every program finished. -/
+theorem every_schedule_can_finish (ps : List (List Op)) (h : ∀ p ∈ ps, NonNesting p) :
+    ∀ s, Reachable ps s → ∃ n s', Steps n s s' ∧ finished s' = true :=
+  RW.every_schedule_can_finish ps h
+
+theorem schedule_bounded {n : Nat} {s s' : St} (h : Steps n s s') : n + work s' ≤ work s :=
+  RW.schedule_bounded h
+
+theorem maximal_schedule_finished (ps : List (List Op)) (h : ∀ p ∈ ps, NonNesting p) {n : Nat} {s : St}
+    (hs : Steps n (initSt ps) s) (hmax : ∀ s', ¬ Step s s') : finished s = true :=
+  RW.maximal_schedule_finished ps h hs hmax
+
+/-- **The server**: any number of goroutines, each calling any sequence of the functions extracted from the tree,
+    never reach a stuck state … -/
+theorem generated_system_deadlock_free (threads : List (List Nat)) :
+    ∀ s, Reachable (threads.map threadProg) s → finished s = false → ∃ s', Step s s' :=
+  RW.nonnesting_deadlock_free _ (by
+    intro p hp
+    obtain ⟨c, _, rfl⟩ := List.mem_map.1 hp
+    exact threadProg_nonnesting c)
+
+/-- … and all their calls complete. -/
+theorem generated_system_completes (threads : List (List Nat)) :
+    ∀ s, Reachable (threads.map threadProg) s → ∃ n s', Steps n s s' ∧ finished s' = true :=
+  RW.every_schedule_can_finish _ (by
+    intro p hp
+    obtain ⟨c, _, rfl⟩ := List.mem_map.1 hp
+    exact threadProg_nonnesting c)
+
+/-- **The defect of the pinned tree, formally**: `RLock; RLock; RUnlock; RUnlock` against one writer reaches a
+    state where nobody is finished and nobody can move. -/
+theorem nested_rlock_can_deadlock :
+    ∃ s, Reachable [nestedProg, writerProg] s ∧ finished s = false ∧ ∀ s', ¬ Step s s' :=
+  RW.nested_rlock_can_deadlock
+
+/-! non-vacuity: three threads (two readers, one writer) satisfy the hypotheses; the table is not empty and
+    contains real critical sections; inlining really resolves calls -/
+example : ∀ p ∈ [[Op.rlock, .runlock, .rlock, .runlock], [.lock, .unlock], [.rlock, .runlock]], NonNesting p := by
+  decide
+example : Reachable [[Op.rlock, .runlock], [.lock, .unlock]] (initSt [[Op.rlock, .runlock], [.lock, .unlock]]) :=
+  Reachable.init
+example : finished (initSt [[Op.rlock, .runlock], [.lock, .unlock]]) = false := by decide
+example : Generated.lockPrograms.length > 20 := by decide
+example : ∃ f, progOf f = [.lock, .unlock] := ⟨0, by decide⟩
+example : (Generated.lockPrograms.any fun p => p.length == 1 && inline p == some [.rlock, .runlock]) = true := by
+  decide
+/-- the check is not trivially true: the pinned tree's shape, an `.unknown` under the lock and a recursive
+    function are all rejected -/
+example : nonNestingB (inlineEv [[.rlock, .call 1, .runlock], [.rlock, .runlock]] 2 [.call 0]) = false := by decide
+example : nonNestingB (inlineEv [] 2 [.lock, .unknown, .unlock]) = false := by decide
+example : nonNestingB (inlineEv [[.call 0]] 5 [.call 0]) = false := by decide
+example : nonNestingB (inlineEv [[.rlock, .runlock], [.call 0, .call 0]] 2 [.call 1]) = true := by decide
+
+/-! ## the epoch set -/
+open EpochSet
+
+/-- **The list of available epochs is always duplicate-free and sorted newest first**: after any sequence of
+    AddEpoch / ReplaceEpoch / ReplaceOrAddEpoch / RemoveEpoch / RemoveEpochByConfigFilepath (any map iteration
+    order), `GetEpochNumbers` is strictly descending. -/
+theorem epoch_numbers_sorted_nodup (ops : List EpochOp) : (numbers (run {} ops)).Pairwise (· > ·) :=
+  numbers_strict_desc (wf_run wf_empty ops)
+
+/-- the listing is exactly the set of loaded epochs -/
+theorem epoch_numbers_complete (ops : List EpochOp) (e : Nat) :
+    e ∈ numbers (run {} ops) ↔ hasEpoch (run {} ops) e = true :=
+  mem_numbers _ e
+
+/-- `GetMostRecentAvailableEpoch` (getSlot) answers with the loaded epoch of the largest number -/
+theorem most_recent_is_newest (ops : List EpochOp) (v : Ep) (hv : mostRecent (run {} ops) = some v) :
+    ∃ e, getEpoch (run {} ops) e = some v ∧ ∀ e', hasEpoch (run {} ops) e' = true → e' ≤ e :=
+  mostRecent_spec (wf_run wf_empty ops) hv
+
+/-- **A query addressed to an epoch that stays loaded behaves as on an idle server**: if no writer of the history
+    is addressed to epoch `e` (or its config file), every read of `e` at every point of the history returns the
+    object loaded at the start. -/
+theorem stable_epoch_unaffected (s : EpochSet.St) (e : Nat) (v : Ep) (hl : getEpoch s e = some v)
+    (ops : List EpochOp) (h : ∀ op ∈ ops, ¬ touches e op) :
+    ∀ k, getEpoch (run s (ops.take k)) e = some v :=
+  EpochSet.stable_epoch_unaffected s e v hl ops h
+
+/-- **No loaded epoch is ever closed** (so no query runs on closed files): along every history whose writers are
+    handed fresh epoch objects, the objects in the map are pairwise distinct and none has had `Close()` called. -/
+theorem loaded_never_closed (ops : List EpochOp) (hf : FreshRun {} ops) : LiveOpen (run {} ops) :=
+  EpochSet.loaded_never_closed liveOpen_empty hf
+
+/-! non-vacuity -/
+def ep (i : Nat) : Ep := { id := i, path := "p", gsfa := false, sig := false }
+example : (numbers (run {} [.add 3 (ep 1), .add 7 (ep 2), .add 3 (ep 3), .remove 9])).length = 2 := by
+  rw [length_numbers]; decide
+example : getEpoch (run {} [.add 3 (ep 1)]) 3 = some (ep 1) ∧
+    ∀ op ∈ [EpochOp.add 3 (ep 9), .replaceOrAdd 4 (ep 2), .remove 5, .removeByConfig "q" (some 4)], ¬ touches 3 op := by
+  decide
+example : FreshRun {} [.add 3 (ep 1), .replaceOrAdd 3 (ep 2), .removeByConfig "p" (some 3)] := by
+  refine .cons ?_ (.cons ?_ (.cons ?_ (.nil _))) <;> simp [freshOp, step, lookup, insert, erase, ep]
+example : (run {} [.add 3 (ep 1), .replaceOrAdd 3 (ep 2), .removeByConfig "p" (some 3)]).closed = [1, 2] := by decide
+
 end C09
